@@ -405,6 +405,10 @@ func chanKey(c any) uintptr { return reflect.ValueOf(c).Pointer() }
 
 const joeClockUnit = 1000 * time.Nanosecond
 
+// how long a scenario may take to play out / to wind down after Shutdown before it is called blocked:
+// generous, so that a loaded machine does not produce false alarms; only a failing scenario waits that long
+const joePatience = 20 * time.Second
+
 var joeMu sync.Mutex // sse.VerifHook is a package global: one scenario at a time
 
 // JOE <seed> <big 0/1>
@@ -702,7 +706,7 @@ func runJoe(args []string) string {
 	// give the scenario time to play out, then always shut down to release everything
 	select {
 	case <-allPubs:
-	case <-time.After(3 * time.Second):
+	case <-time.After(joePatience):
 		t.mu.Lock()
 		t.fact("PUBLISH-BLOCKED")
 		t.mu.Unlock()
@@ -714,13 +718,13 @@ func runJoe(args []string) string {
 	go func() { wg.Wait(); close(finished) }()
 	select {
 	case <-finished:
-	case <-time.After(3 * time.Second):
+	case <-time.After(joePatience):
 		t.mu.Lock()
 		t.fact("CALLS-BLOCKED-AFTER-SHUTDOWN")
 		t.mu.Unlock()
 	}
 	// Joe's goroutine must exit
-	deadline := time.Now().Add(2 * time.Second)
+	deadline := time.Now().Add(joePatience)
 	for runtime.NumGoroutine() > baseG && time.Now().Before(deadline) {
 		time.Sleep(200 * time.Microsecond)
 	}
